@@ -536,6 +536,8 @@ class Ops:
             jj = z3.Int('j!in')
             return z3.Exists([jj], z3.And(0 <= jj, jj < z3.Length(items), pyeq(x, items[jj])))
         if k == 2:
+            if ctor(it.refine(x)) == 'StrV':
+                self.world.lazy_instantiate(it, c, it.refine(x).arg(0))
             return z3.And(V.is_StrV(x), z3.Select(V.dhas(c), V.s(x)))
         if k == 3:
             return z3.And(V.is_StrV(x), z3.Select(V.selems(c), V.s(x)))
@@ -561,14 +563,20 @@ class Ops:
                               (z3.And(intlike(i), z3.Or(ii >= n, ii < -n)), 'IndexError'),
                               (z3.And(intlike(i), ii < n, ii >= -n), None)], 'index')
             pos = z3.If(ii >= 0, ii, n + ii)
-            return SV(simp(vals.seq_at(items, simp(pos))), elty)
+            el = simp(vals.seq_at(items, simp(pos)))
+            self.world.element_kind(it, el, elty)
+            return SV(el, elty)
         if k == 1:
             if obj.ty and obj.ty.startswith('enumdict'):
                 return self.world.calls.enum_getitem(it, obj, idx)
+            if ctor(it.refine(i)) == 'StrV':
+                self.world.lazy_instantiate(it, c, it.refine(i).arg(0))
             self.outcome(it, [(z3.Not(_hashable(i)), 'TypeError'),
                               (z3.And(_hashable(i), z3.Not(z3.And(V.is_StrV(i), z3.Select(V.dhas(c), V.s(i))))), 'KeyError'),
                               (z3.And(V.is_StrV(i), z3.Select(V.dhas(c), V.s(i))), None)], 'key')
-            return SV(simp(z3.Select(V.dmap(c), V.s(i))), elty)
+            el = simp(z3.Select(V.dmap(c), V.s(i)))
+            self.world.element_kind(it, el, elty)
+            return SV(el, elty)
         if k == 2:
             n = z3.Length(V.s(c))
             ii = ival(i)
@@ -667,7 +675,9 @@ class Ops:
         out = []
         for j in range(n):
             ty = tys[j + 1] if tys and len(tys) > j + 1 else elty
-            out.append(SV(simp(seq[j]), ty if ty != '?' else None))
+            el = simp(vals.seq_at(seq, z3.IntVal(j)))
+            self.world.element_kind(it, el, ty if ty != '?' else None)
+            out.append(SV(el, ty if ty != '?' else None))
         return out
 
     # --------------------------------------------------------- attributes
